@@ -124,8 +124,11 @@ fn markdown_comments_parser() -> anyhow::Result<impl CommentsParser> {
             result.push_str(&comment[..prefix_idx]);
             // Replace "[//]:" with spaces.
             result.push_str("     ");
-            // Replace everything before the open delimiter with spaces (including the delimiter).
-            result.push_str(" ".repeat(open_idx - (prefix_idx + 5) + 1).as_str());
+            // Replace everything before the open delimiter with spaces (including the delimiter),
+            // byte by byte, but keep the line breaks: the title may start on the next line.
+            for byte in &comment.as_bytes()[start_search..=open_idx] {
+                result.push(if *byte == b'\n' { '\n' } else { ' ' });
+            }
             // Copy the comment's content.
             result.push_str(&comment[open_idx + 1..close_idx]);
             // Replace the close delimiter with a space.
